@@ -221,6 +221,9 @@ class HistoryMonitor(Monitor):
         if ctx.commits >= 1:
             self.check_pending(ctx)
             self.check_pending_fresh(ctx)
+            self._gets = getattr(self, "_gets", 0) + 1
+            if self._gets % 4 == 1:
+                self.check_scheduler_contents(ctx)
             if getattr(self, "_occupancy_checked_at", None) != ctx.commits:
                 self.check_occupancy(ctx)
 
@@ -391,6 +394,41 @@ class HistoryMonitor(Monitor):
                         return "stale-trajectory", "moving unit %r left the trajectory the candidate was computed " \
                                                    "from" % (uid,)
         return None
+
+    def check_scheduler_contents(self, ctx):
+        """C08, second sentence, at the scheduler itself: the finite events that are alive in the scheduler (list
+        entries; heap entries whose counter is the handler's current validity counter) are exactly the pushed and not
+        trashed candidates the harness recorded at the push/trash seams - a candidate whose trash the scheduler
+        swallowed survives there without ever having to be returned.  Private reads: ListScheduler._times,
+        HeapScheduler.__getstate__()/_minimal_valid_counter."""
+        sched = ctx.scheduler
+        alive = Counter()
+        name = sched.__class__.__name__
+        if hasattr(sched, "_times"):
+            for element in sched._times:
+                t = tt(element.time)
+                if not math.isinf(t[0]):
+                    alive[(id(element.event_handler), t)] += 1
+        elif hasattr(sched, "_minimal_valid_counter"):
+            for q, r, handler, counter in sched.__getstate__()["heap_entries"]:
+                if counter == sched._minimal_valid_counter.get(handler, 0):
+                    alive[(id(handler), (q, r))] += 1
+        else:
+            return
+        expected = Counter()
+        for hid in self.pending:
+            t = self.cand_time.get(hid)
+            if t is not None and not math.isinf(t[0]):
+                expected[(hid, t)] += 1
+        self.stats["scheduler_inspections"] += 1
+        if alive != expected:
+            survivors = list((alive - expected).elements())[:3]
+            lost = list((expected - alive).elements())[:3]
+            names = {id(h): h.__class__.__name__ for h in ctx.handlers}
+            self.verdict("C08", "scheduler-contents", "%s holds live events that were trashed or never pushed: %r; "
+                         "pushed events it no longer holds: %r" % (
+                             name, [(names.get(h, "?"), t) for h, t in survivors],
+                             [(names.get(h, "?"), t) for h, t in lost]), ctx)
 
     def check_pending_fresh(self, ctx):
         """C08, second sentence: no candidate of an interaction or cell-veto handler survives in the scheduler after
